@@ -165,7 +165,8 @@ STMT_FORMS = {  # %(W)s = an expression statement / expression that writes (or, 
     "return": None,  # handled specially: return (W);
     "nested-loops": "for (it : int[0,1]) { while (loc < 2) { loc++; do { if (C > 0) { loc = 2; } else { %(W)s; } } while (loc < 0); } }",
 }
-WRITE_EXPRS = ["w = 1", "w += 1", "w++", "--w", "arr[1] = 1", "arr[loc] ^= 1", "st.b = 1", "st.a <<= 1", "w = (x = 1)", "(bb ? w : x) = 1"]
+WRITE_EXPRS = ["w = 1", "w += 1", "w++", "--w", "arr[1] = 1", "arr[loc] ^= 1", "st.b = 1", "st.a <<= 1", "w = (x = 1)", "(bb ? w : x) = 1",
+               "(bb ? loc : w) = 1", "(bb ? w : loc) -= 1", "(bb ? loc : arr[1])++"]
 
 
 def writer_function(name, form, wexpr, twin, ret="int", params="", wtarget_local="loc"):
@@ -173,7 +174,7 @@ def writer_function(name, form, wexpr, twin, ret="int", params="", wtarget_local
     w = wexpr
     if twin:
         # same operator, target replaced by the local `loc`
-        for t in ("arr[loc]", "arr[1]", "st.a", "st.b", "(bb ? w : x)", "w"):
+        for t in ("(bb ? loc : arr[1])", "(bb ? loc : w)", "(bb ? w : loc)", "arr[loc]", "arr[1]", "st.a", "st.b", "(bb ? w : x)", "w"):
             if w.startswith(t):
                 w = wtarget_local + w[len(t):]
                 break
@@ -277,6 +278,26 @@ def run_harness(core, exe, cases, chunk=400, args=("model",)):
     return recs, crashes
 
 
+def run_both(core, name, source, cases, thorough, log=None):
+    """All cases on the plain (-O2) build, a sample (quick: every 12th; thorough: every 2nd) also on the ASan+UBSan build.
+    -> (records of the plain run, crashes of either run, cases whose diagnostics differ between the builds)"""
+    bp = core.build_repo("plain")
+    exe_p = core.build_harness(bp, name + "p", [source])
+    recs, crashes = run_harness(core, exe_p, cases, chunk=1000)
+    ba = core.build_repo("asan")
+    exe_a = core.build_harness(ba, name, [source])
+    sample = cases[::2] if thorough else cases[::12]
+    recs_a, crashes_a = run_harness(core, exe_a, sample, args=())
+    differ = []
+    for c in sample:
+        a, p = recs_a.get(c.cid), recs.get(c.cid)
+        if a is not None and p is not None and (a["errors"], a["qerrors"], a["F"]) != (p["errors"], p["qerrors"], p["F"]):
+            differ.append(c)
+    if log:
+        log("ran %d models on the plain build, %d of them also under ASan+UBSan" % (len(cases), len(sample)))
+    return recs, crashes + crashes_a, differ, len(sample)
+
+
 def run_driver(core, exe, recs):
     """Feeds every M line to the Lean driver; -> {cid: {"DBU":..., "X": {n: (changes, ctc)}, "FI": {fid: (changes, depends)}, "mismatch": [...]}}"""
     cids = [c for c in recs if recs[c]["mline"]]
@@ -287,7 +308,7 @@ def run_driver(core, exe, recs):
         if cur is None:
             if not line:
                 continue
-            cur = {"DBU": None, "X": {}, "FI": {}, "mismatch": [], "bad": False, "RS": {}, "exceptions": None}
+            cur = {"DBU": None, "X": {}, "FI": {}, "mismatch": [], "bad": False, "RS": {}, "exceptions": None, "exceptions11": None}
         if line == "ENDM":
             if k < len(cids):
                 res[cids[k]] = cur
@@ -304,8 +325,10 @@ def run_driver(core, exe, recs):
         elif line.startswith("RS "):
             p = line.split(" ")
             cur["RS"][p[1]] = p[2]
+        elif line.startswith("EXCEPTIONS11"):
+            cur["exceptions11"] = [x for x in line.split(" ")[1:] if x]
         elif line.startswith("EXCEPTIONS"):
-            cur["exceptions"] = line.split(" ")[1:]
+            cur["exceptions"] = [x for x in line.split(" ")[1:] if x]
         elif line.startswith("CTCSET-MISMATCH"):
             cur["mismatch"].append(line)
         elif line.startswith("BAD-MODEL-LINE"):
@@ -379,3 +402,19 @@ def prove(ctx, core, module, exes):
         cov["discharged"] = cov.get("obligations", 0)
         return True, log
     return ok, log
+
+
+BUILTIN_CONSTS = {"INT8_MIN", "INT8_MAX", "UINT8_MAX", "INT16_MIN", "INT16_MAX", "UINT16_MAX", "INT32_MIN", "INT32_MAX", "FLT_MIN",
+                  "FLT_MAX", "DBL_MIN", "DBL_MAX", "M_PI", "M_PI_2", "M_PI_4", "M_E", "M_LOG2E", "M_LOG10E", "M_LN2", "M_LN10", "M_1_PI",
+                  "M_2_PI", "M_2_SQRTPI", "M_SQRT2", "M_SQRT1_2"}
+
+
+def own_contexts(rec):
+    """number of compared context expressions that are not initialisers of the library's built-in constants"""
+    n = 0
+    for label, _, _ in rec["X"].values():
+        l = label.strip('"')
+        if l.startswith("init:") and l[5:] in BUILTIN_CONSTS:
+            continue
+        n += 1
+    return n
